@@ -281,7 +281,9 @@ func (s *PfcpServer) sendReqTo(msg message.Message, addr net.Addr) error {
 	}
 
 	txtr := NewTxTransaction(s, addr, s.txSeq)
-	s.txSeq++
+	// PFCP sequence numbers are 24 bits wide on the wire; keep the counter (and
+	// with it the transaction key) in that range so that responses still match.
+	s.txSeq = (s.txSeq + 1) & 0xffffff
 	s.txTrans[txtr.id] = txtr
 
 	return txtr.send(msg)
